@@ -167,7 +167,7 @@ class C10(Base):
         if bad:
             return bad
         ops = case.partition(" ")[2].split(";")
-        obs = impl_obs.split(";")
+        obs = impl_obs.split(";") if impl_obs else []
         if len(ops) != len(obs):
             return "observation count %d != op count %d" % (len(obs), len(ops))
         m = {}   # id -> ("M", value, attrs) | ("T", value, attrs) | ("F", tag)
@@ -270,7 +270,7 @@ class C10(Base):
 
     def classify(self, case, impl_obs, dist):
         ops = case.partition(" ")[2].split(";")
-        obs = impl_obs.split(";")
+        obs = impl_obs.split(";") if impl_obs else []
         bump(dist, "histories")
         adds = sum(1 for o in ops if o.split(":")[0] in ("add", "addov", "fn"))
         bump(dist, "adds:%d" % min(adds, 8))
